@@ -33,7 +33,7 @@ variable {κ ν : Type} [DecidableEq κ] [DecidableEq ν]
 theorem cache_holds (cfg : Cfg) (hmax : 0 ≤ cfg.max) (evs : List (Ev κ ν)) :
     holds cfg (run (cfg.init : Cache κ ν) evs) = true := by
   have := run_holdsRev cfg evs (cfg.init : Cache κ ν) [] (entInv_init cfg) (sizeInv_init cfg hmax)
-    ⟨rfl, rfl⟩ rfl
+    ⟨rfl, rfl⟩ (onTime_init cfg) rfl
   simpa [holds] using this
 
 /-- `get k` at `t` returns `v` ⇒ the history before it contains a successful `set k v ttl` at `t₀` with
@@ -52,7 +52,7 @@ theorem hit_only_same_key_and_fresh (cfg : Cfg) (hmax : 0 ≤ cfg.max) (evs : Li
   | some x =>
     obtain ⟨v', t0, ttl⟩ := x
     simp only [hl, freshStore, Bool.and_eq_true, decide_eq_true_eq] at hr
-    obtain ⟨hv, hle⟩ := hr
+    obtain ⟨⟨hv, hle⟩, _⟩ := hr
     subst hv
     exact ⟨t0, ttl, hle, lastStore_spec k _ v t0 ttl hl⟩
 
@@ -68,8 +68,8 @@ theorem has_only_fresh (cfg : Cfg) (hmax : 0 ≤ cfg.max) (evs : List (Ev κ ν)
   | none => simp [hl, freshStore] at hr
   | some x =>
     obtain ⟨v', t0, ttl⟩ := x
-    simp only [hl, freshStore, Bool.true_and, decide_eq_true_eq] at hr
-    exact ⟨v', t0, ttl, rfl, hr⟩
+    simp only [hl, freshStore, Bool.true_and, Bool.and_eq_true, decide_eq_true_eq] at hr
+    exact ⟨v', t0, ttl, rfl, hr.1⟩
 
 /-- After the expiry of the last store of `k` (or when `k` was never stored / was deleted) `get k` misses,
     whatever the sleepers did. -/
@@ -104,7 +104,7 @@ theorem stale_sleeper_only_deletes (c : Cache κ ν) (i : Nat) :
     (∀ k e, find? k (fire c i).1.entries = some e → find? k c.entries = some e) ∧
     (SizeInv c → SizeInv (fire c i).1) ∧
     ((fire c i).1.entries = c.entries ∨
-      ∃ s, c.pending[i]? = some s ∧ s.due ≤ c.now ∧ (fire c i).1.entries = erase s.key c.entries) := by
+      ∃ s, c.pending[i]? = some s ∧ s.due ≤ c.mono ∧ (fire c i).1.entries = erase s.key c.entries) := by
   refine ⟨fun k e h => find?_fire h, sizeInv_fire i, ?_⟩
   rcases fire_cases c i with h1 | h1 | ⟨s, hs, hd, h1⟩
   · left; rw [h1]
@@ -137,11 +137,12 @@ theorem refines_abstract_map (c : Cache κ ν) (ev : Ev κ ν) :
 theorem fresh_hit_without_stale_sleeper (c : Cache κ ν) (k : κ) (v : ν) (ttl : Int) (sz : Nat)
     (hok : (set c k v ttl sz).2 = .ok) (httl : ttl > 0) (hnostale : ∀ s, s ∈ c.pending → s.key ≠ k)
     (evs : List (Ev κ ν)) (hev : ∀ ev, ev ∈ evs → touchesKey k ev = false)
-    (hfresh : (final (set c k v ttl sz).1 evs).now < c.now + ttl) :
+    (hfresh : (final (set c k v ttl sz).1 evs).mono < c.mono + ttl)
+    (hwall : ¬ (final (set c k v ttl sz).1 evs).now > c.now + ttl) :
     get (final (set c k v ttl sz).1 evs) k = some v := by
   have hroom : ¬ (c.sizeOn = true ∧ c.tracked + (sz : Nat) > c.max) := by
     intro h; rw [set_eq_full k v ttl sz h] at hok; cases hok
-  have hinit : Live k v (c.now + ttl) sz (set c k v ttl sz).1 := by
+  have hinit : Live k v (c.now + ttl) sz (c.mono + ttl) (set c k v ttl sz).1 := by
     rw [set_eq_pos k v ttl sz hroom httl]
     left
     refine ⟨by simp [find?], ?_⟩
@@ -151,9 +152,22 @@ theorem fresh_hit_without_stale_sleeper (c : Cache κ ν) (k : κ) (v : ν) (ttl
     · exact absurd hsk (hnostale s h1)
   rcases live_final evs _ hinit hev with ⟨hf, _⟩ | hpast
   · simp only [get, hf]
-    have : ¬ (final (set c k v ttl sz).1 evs).now > c.now + ttl := by omega
-    simp [this]
+    simp [hwall]
   · omega
+
+/-- Freshness in ELAPSED time (the wall clock may be stepped, also backwards, at any point): in a history in
+    which expiry timers run on time (time passes through `adv`, never `skip`), a `get k` that hits happens strictly
+    before the elapsed deadline (elapsed clock at the store + ttl) of the last store of `k`. -/
+theorem hit_fresh_in_elapsed_time (cfg : Cfg) (hmax : 0 ≤ cfg.max) (evs : List (Ev κ ν))
+    (pre post : List (Rec κ ν)) (r : Rec κ ν) (k : κ) (v : ν)
+    (hsplit : run (cfg.init : Cache κ ν) evs = pre ++ r :: post)
+    (hev : r.ev = .get k) (hout : r.out = .got (some v)) (hot : timersOnTime pre.reverse = true) :
+    ∃ d, storeDue k pre.reverse = some d ∧ r.m < d := by
+  have hr := recOk_of_split cfg _ pre post r (cache_holds cfg hmax evs) hsplit
+  simp only [recOk, hev, hout, Bool.and_eq_true, elapsedFresh, hot, Bool.not_true, Bool.false_or] at hr
+  cases hd : storeDue k pre.reverse with
+  | none => simp [hd] at hr
+  | some d => simp only [hd, decide_eq_true_eq] at hr; exact ⟨d, rfl, hr.2⟩
 
 end
 
@@ -173,8 +187,15 @@ example : (let c := final (Cache.init 0 true 10 : Cache Nat Nat) [.set 1 7 5 3, 
     clock moved to one ns before the expiry — still a hit. -/
 example : (let c0 : Cache Nat Nat := Cache.init 0 true 10
     let evs : List (Ev Nat Nat) := [.set 2 9 1 1, .skip 3, .fire 0, .skip 1]
-    ((set c0 1 7 5 3).2, evs.all fun ev => !touchesKey 1 ev, (final (set c0 1 7 5 3).1 evs).now,
+    ((set c0 1 7 5 3).2, evs.all fun ev => !touchesKey 1 ev, (final (set c0 1 7 5 3).1 evs).mono,
       get (final (set c0 1 7 5 3).1 evs) 1)) = (.ok, true, 4, some 7) := by decide
+
+/-- the wall clock stepped back by 100 after the store (ttl 5): timers on time ⇒ the entry is gone once 5 ns have
+    ELAPSED, although `now > expiry` alone would call it fresh for 100 ns more. -/
+example : ((run (Cache.init 100 false 0 : Cache Nat Nat)
+    [.set 1 7 5 3, .wstep (-100), .adv 4, .get 1, .adv 1, .get 1]).map fun r =>
+      (r.t, r.m, match r.out with | .got o => o | _ => none))
+    = [(100, 0, none), (100, 0, none), (0, 0, none), (4, 4, some 7), (4, 4, none), (5, 5, none)] := by decide
 
 /-- the size test refuses the store that would exceed the maximum. -/
 example : ((run (Cache.init 0 true 4 : Cache Nat Nat) [.set 1 7 5 3, .set 2 8 5 2, .get 2]).map fun r =>
@@ -300,7 +321,7 @@ theorem caching_replay_only_same_key_and_fresh (cfg : CCfg) (hmax : 0 ≤ cfg.ma
     (ops : List (POp σ)) (pre post : List (PRec σ)) (r : PRec σ)
     (m u : σ) (sel : List (σ × σ)) (st : Nat) (body : σ) (tag ra : Option σ)
     (hsplit : crun cfg (Cache.init t0 false 0) ops = pre ++ r :: post)
-    (hop : r.op = .req m u sel) (hout : r.out = .early st body tag (.raw ra)) :
+    (hop : r.op = .req m u sel) (extra : Nat) (hout : r.out = .early st body tag (.raw ra) extra) :
     ∃ r0, r0 ∈ pre ∧ ∃ rr bl sz, r0.op = .resp m u sel rr bl sz ∧ bl ≤ cfg.maxRec ∧
       rr.status = st ∧ rr.body = body ∧ rr.tag = tag ∧ rr.ra = ra ∧ r0.t ≤ r.t ∧ r.t ≤ r0.t + cfg.ttl := by
   have h := caching_holds cfg hmax t0 ops
@@ -315,8 +336,8 @@ theorem caching_replay_only_same_key_and_fresh (cfg : CCfg) (hmax : 0 ≤ cfg.ma
     have h2 := this _ _ h
     simp only [choldsRev, Bool.and_eq_true] at h2
     exact h2.1
-  simp only [cRecOk, hop, hout, List.any_eq_true] at hr
-  obtain ⟨r0, hm, hj⟩ := hr
+  simp only [cRecOk, hop, hout, Bool.and_eq_true, List.any_eq_true] at hr
+  obtain ⟨r0, hm, hj⟩ := hr.2
   refine ⟨r0, List.mem_reverse.mp hm, ?_⟩
   cases hop0 : r0.op with
   | resp m0 u0 sel0 rr bl sz =>
@@ -442,7 +463,7 @@ theorem retry_after_decrement (f : AbsTtl) (cfg : TCfg) (hrel : cfg.type = .rel)
     (pre post : List (PRec σ)) (r : PRec σ) (m u : σ) (sel : List (σ × σ))
     (st : Nat) (body : σ) (tag : Option σ) (ra : RaOut σ)
     (hsplit : trun f cfg (Cache.init t0 false 0) ops = pre ++ r :: post)
-    (hop : r.op = .req m u sel) (hout : r.out = .early st body tag ra) :
+    (hop : r.op = .req m u sel) (extra : Nat) (hout : r.out = .early st body tag ra extra) :
     ∃ r0, r0 ∈ pre ∧ ∃ sel0 rr bl sz n, r0.op = .resp m u sel0 rr bl sz ∧
       cfg.statuses.contains rr.status = true ∧ rr.status = st ∧ rr.body = body ∧ rr.tag = tag ∧
       origNs rr r0.t = some n ∧ r0.t ≤ r.t ∧ r.t - r0.t < n ∧ ra = .ns (n - (r.t - r0.t)) := by
@@ -469,8 +490,8 @@ theorem retry_after_decrement (f : AbsTtl) (cfg : TCfg) (hrel : cfg.type = .rel)
     have h2 := this _ _ h
     simp only [tholdsRev, Bool.and_eq_true] at h2
     exact h2.1
-  simp only [tRecOk, hop, hout, List.any_eq_true] at hr
-  obtain ⟨r0, hm, hj⟩ := hr
+  simp only [tRecOk, hop, hout, Bool.and_eq_true, List.any_eq_true] at hr
+  obtain ⟨r0, hm, hj⟩ := hr.2
   refine ⟨r0, List.mem_reverse.mp hm, ?_⟩
   cases hop0 : r0.op with
   | resp m0 u0 sel0 rr bl sz =>
@@ -494,7 +515,7 @@ end
 example : ((trun absTtlExact ⟨.rel, [429]⟩ (Cache.init 500000000 false 0)
       ([.resp 1 2 [] ⟨5, 429, 6, none, some 7, some 2000000000, true, none⟩ 0 0, .req 1 2 [], .skip 1999999999,
         .req 1 2 [], .skip 1, .req 1 2 []] : List (POp Nat))).map fun r =>
-        match r.out with | .early _ _ _ (.ns n) => n | _ => 0)
+        match r.out with | .early _ _ _ (.ns n) _ => n | _ => 0)
       = [0, 2000000000, 0, 1, 0, 0] := by decide
 
 /-- non-vacuity of `throttle_holds`, absolute type (the repaired F12b shape): instant 1 s, stored at 0.5 s:
